@@ -853,8 +853,8 @@ fn layout_pool(opts: &Opts, rng: &mut Rng, n_gen: usize) -> Vec<LayoutCase> {
   }
   for _ in 0..n_gen {
     let p = match opts.prop.as_str() {
-      "C11" => GenParams { absorbing: rng.chance(1, 4), norepeat: true, special_bias: true, max_mappings: 6 },
-      _ => GenParams { absorbing: rng.chance(1, 3), norepeat: rng.chance(2, 3), special_bias: rng.chance(1, 2), max_mappings: 6 }
+      "C11" => GenParams { absorbing: rng.chance(1, 4), norepeat: true, special_bias: true, max_mappings: 6, shared_repeat: rng.chance(1, 8) },
+      _ => GenParams { absorbing: rng.chance(1, 3), norepeat: rng.chance(2, 3), special_bias: rng.chance(1, 2), max_mappings: 6, shared_repeat: rng.chance(1, 8) }
     };
     cases.push(positive_timing(gen_case(rng, &p)));
   }
